@@ -1,6 +1,6 @@
 (* C10 -- comparison operators.  Theorem statements only; proofs in Cmp.v. *)
 From Coq Require Import String ZArith Bool Arith List.
-From SV Require Import Names NamesFacts ListFacts Rep Fresh Complex Atomic RepInv Cmp Shapes CopyFaithful Closed ClosedReach Smaller.
+From SV Require Import Names NamesFacts ListFacts Rep Fresh Complex Atomic RepInv Cmp Shapes CopyFaithful Closed ClosedReach Smaller EqSets.
 Import ListNotations.
 
 (* a <= b exactly when every simplex listed in a occurs in b with the same order and with its
@@ -58,3 +58,14 @@ Theorem C10_delete_makes_strictly_smaller :
   forall r s r' x, sinv r -> containsSimplex r s = true -> deleteSimplex r s = (r', x) -> c_lt r' r = true.
 Proof. exact deleteSimplex_strictly_smaller. Qed.
 Print Assumptions C10_delete_makes_strictly_smaller.
+
+(* a == b forces the same set of simplices; so complexes that differ in any simplex -- a
+   highest-order one, a lone point -- are never equal (and != holds) *)
+Theorem C10_equal_complexes_have_the_same_simplices :
+  forall a b, pinv a -> pinv b -> c_eq a b = true -> forall s, containsSimplex a s = containsSimplex b s.
+Proof. exact eq_same_simplices. Qed.
+Print Assumptions C10_equal_complexes_have_the_same_simplices.
+Theorem C10_differ_in_a_simplex_never_equal :
+  forall a b s, pinv a -> pinv b -> containsSimplex a s <> containsSimplex b s -> c_eq a b = false /\ c_ne a b = true.
+Proof. exact differ_in_a_simplex_never_equal. Qed.
+Print Assumptions C10_differ_in_a_simplex_never_equal.
